@@ -325,6 +325,13 @@ COMPOSED = {
            "written into the placeholder stub of its module).",
     "C04": " WHOLE TOOL (Theorems/C04b): moduleLog_top, tool_private_not_top_level (in a completed run a function or class the "
            "analysis marked private is never a top-level entry of a module's emission log).",
+    "C09": " PACKAGE SEGMENTS (Theorems/C09b, after repair 8e9a214 of a genuine defect: a dotted path was converted as one name): "
+           "path_off, path_segments (the segments of the rendered path are the rendered segments, one for one), "
+           "path_segments_no_underscore, path_segments_legal, module_annotation_iff_differs, recover_path_flag_independent, "
+           "module_header_is_emitPath; convert_any_path/convert_any_name tie the two call shapes to the one function "
+           "_convert_name_to_convention. S-N also runs dotted paths through both and checks every segment against a "
+           "lowerCamelCase written from the property; S-B/S-E check the package line of every stub against the segments of "
+           "the recoverable Python module.",
     "C07": " COMPOSITION (Theorems/C07b): annotated_none_stub (-> None: one API result, no result in the stub), "
            "annotated_single_api / annotated_single_stub (-> T: exactly one result result_1 whose text is the specified text of "
            "the specified mapping of the mypy type).",
